@@ -67,8 +67,10 @@ def check(model: Model, run: Run) -> None:
     from ..tlvcheck import nonconstant_tags
     nonconstant_tags(ex, run, "B11-writer-tags-are-constants")
     enumerated_values(model, ex, run)
-    from .c07 import constructed_flush
+    from .c07 import constructed_flush, hand_built_integer_content
     constructed_flush(model, run)
+    from .c05 import may_raise
+    hand_built_integer_content(model, run, may_raise(model))
 
 
 # RFC 4511 section 4.1.9 (resultCode), 4.5.1 (scope, derefAliases): the named numbers of each ENUMERATED type, under the
